@@ -19,7 +19,7 @@
    IndicatorSumConstraint on a uniformly weighted space.  The KL family has its own
    theorems below (its values involve ln).                                                              *)
 From Coq Require Import QArith Qreals Reals Lra Lia String List Bool.
-From Verif Require Import Base.Num Base.Vec Base.VecR C07.Model C07.Convex C07.Leaves C07.LeafThms C07.Rules C07.L2 C07.Compose C07.Sorting C07.KL C07.Group C07.Proofs C07.Sound C07.Refuted C07.BindSyntax Gen.ProxBindings C07.Bindings C07.Transfer.
+From Verif Require Import Base.Num Base.Vec Base.VecR C07.Model C07.Convex C07.Leaves C07.LeafThms C07.Rules C07.L2 C07.Compose C07.Sorting C07.KL C07.Group C07.PerPoint C07.Proofs C07.Sound C07.Refuted C07.BindSyntax Gen.ProxBindings C07.Bindings C07.Transfer.
 Import ListNotations.
 Local Open Scope R_scope.
 
@@ -219,6 +219,30 @@ Theorem prox_tree_default_convex_conj : forall (e : @fexpr R) (fs : list R -> op
             is_proxs (fdim e) fs (metric (fweights e) (repeat sigma (fdim e))) x p.
 Proof. exact fprox_default_convex_conj. Qed.
 Print Assumptions prox_tree_default_convex_conj.
+
+(* Element-valued (per-point) steps through proximal_convex_conj and proximal_quadratic_perturbation
+   (vinv v = 1/v entry-wise, qc a v = 1/sqrt(2 v a + 1) entry-wise): the rules hold entry-wise, for arbitrary f;
+   they are part of the tree theorem (sig_ok admits SVec at a QuadraticPerturb node whose inner tree admits it). *)
+Theorem rule_convex_conj_elementwise_step : forall n (f fs : list R -> option R) (w v x q : list R),
+  allpos w -> allpos v -> length w = n -> length v = n -> length x = n ->
+  is_conj n w f fs ->
+  is_proxs n f (metric w (vinv v)) (vmul (vinv v) x) q ->
+  is_proxs n fs (metric w v) x (vsub x (vmul v q)).
+Proof. exact rule_moreau_vec. Qed.
+Print Assumptions rule_convex_conj_elementwise_step.
+Theorem rule_quadratic_perturbation_elementwise_step : forall n (f : list R -> option R) (w v : list R) (a : R) (u : list R) (k : R) (x q : list R),
+  0 <= a -> allpos w -> allpos v -> length w = n -> length v = n -> length u = n -> length x = n ->
+  let c := qc a v in
+  is_proxs n f (metric w (vmul v (vmul c c))) (vmul c (vsub (vmul c x) (vmul (vmul v c) u))) q ->
+  is_proxs n (fun z => eadd (f z) (Some (a * wnormsq w z + wdot w z u + k))) (metric w v) x q.
+Proof. exact rule_quadratic_perturbation_vec. Qed.
+Print Assumptions rule_quadratic_perturbation_elementwise_step.
+Theorem prox_tree_default_convex_conj_elementwise_step : forall (e : @fexpr R) (fs : list R -> option R) (v x : list R),
+  wf e -> allpos v -> length v = fdim e -> length x = fdim e -> sig_ok e (SVec (vinv v)) ->
+  is_conj (fdim e) (fweights e) (fval e) fs ->
+  exists p, prox_convex_conj (fprox e) (SVec v) x = Ok p /\ is_proxs (fdim e) fs (metric (fweights e) v) x p.
+Proof. exact fprox_default_convex_conj_vec. Qed.
+Print Assumptions prox_tree_default_convex_conj_elementwise_step.
 
 (* the pair used by IndicatorLpUnitBall(2).proximal = proximal_convex_conj(proximal_l2): the conjugate of the
    norm of the weighted space is the indicator of its unit ball (weighted Cauchy-Schwarz) *)
